@@ -272,6 +272,11 @@ func runC04(c *Ctx) {
 	const r6 = "C04.R6 deliveries to client sessions never block; dealer and broker never block on the meta session"
 	ruleNonBlocking(c, r6)
 	c.R.Floor(r6, 25)
+
+	// R7: dicts handed to peers are never written afterwards or while shared
+	const r7 = "C04.R7 message dicts are written only while private (no concurrent map access with serialisers)"
+	ruleDictWrites(c, r7)
+	c.R.Floor(r7, 30)
 }
 
 
